@@ -188,7 +188,8 @@ func Snapshot(repo, dst string) error {
 				}
 				return nil
 			}
-			if info.Mode().IsRegular() && info.Size() < 4<<20 && info.Mode()&0o111 == 0 {
+			// built binaries stay behind (large and executable); the repository's shell recipes are executable too
+			if info.Mode().IsRegular() && info.Size() < 4<<20 && (info.Mode()&0o111 == 0 || info.Size() < 256<<10) {
 				files = append(files, rel)
 			}
 			return nil
